@@ -421,3 +421,66 @@ def crossover_shape(ctx):
                   '%s uses a position loop that is neither the exponential nor the binomial crossover (or n is not randrange(nDim))' % q, f, lp)
         if shape:
             ctx.note('%s uses the %s loop' % (q, shape))
+
+
+def attr_store_cases(fnode, attr, selfname='self'):
+    """[(path, literals, stored leaf)] for every store to self.<attr> along the sliced paths of fnode, conditional
+    expressions flattened: literals are (condition term, truth) from the path and from the expression"""
+    want = ('attr', ('name', selfname), attr)
+    stores = [s for s in stmts_of(fnode) if isinstance(s, ast.Assign) and any(T.term(tg) == want for tg in s.targets)]
+    if not stores:
+        return []
+    seeds = set()
+    for s in stores:
+        seeds |= set(n.id for n in ast.walk(s.value) if isinstance(n, ast.Name))
+    names = backward_slice(fnode, seeds)
+
+    def rel(n):
+        if n in stores:
+            return True
+        if isinstance(n, (ast.Assign, ast.AugAssign, ast.For)):
+            return bool(set(assigned_names(n)) & names)
+        return False
+    out = []
+    for p in enumerate_paths(fnode, relevant=rel, unroll=(0, 1)):
+        b = T.Builder()
+        lits = []
+        for e in p.events:
+            if e[0] == 'cond':
+                lits.append((T.simp(b.t(e[1])), e[2]))
+            elif e[0] == 'stmt':
+                st = e[1]
+                if st in stores:
+                    v = T.simp(b.t(st.value))
+                    for cl, leaf in T.cases(v):
+                        out.append((p, tuple(lits) + tuple(cl), leaf, st))
+                b.exec_stmt(st)
+    return out
+
+
+@rule('C08.g', min_instances=4)
+def de_settings_reach_the_strategies_unchanged(ctx):
+    """the scale F and the crossover probability CR the strategies read (inst.scale, inst.probability) are exactly what the caller gave: _process_inputs stores kwds[key] whenever the key is present (any value, 0 included) and keeps the previous value only when it is absent; SetInitial.../__init__ defaults aside, nothing else rewrites them"""
+    for cls in ('DifferentialEvolutionSolver', 'DifferentialEvolutionSolver2'):
+        f = ctx.func('mystic.differential_evolution:%s._process_inputs' % cls)
+        sn = selfname_of(f)
+        kw = f.node.args.args[1].arg if len(f.node.args.args) > 1 else 'kwds'
+        for attr, key in (('probability', 'CrossProbability'), ('scale', 'ScalingFactor')):
+            cs = attr_store_cases(f.node, attr, sn)
+            ctx.need(cs, '%s._process_inputs: no store to self.%s' % (cls, attr))
+            present = ('cmp', 'in', ('const', key), ('name', kw))
+            given = [('sub', ('name', kw), ('const', key)), ('call', ('attr', ('name', kw), 'get'), (('const', key),), ())]
+            old = ('attr', ('name', sn), attr)
+            bad = None
+            for p, lits, leaf, st in cs:
+                knows = dict((c, tr) for c, tr in lits)
+                if leaf in given and knows.get(present) is True:
+                    continue
+                if leaf == old and knows.get(present) is False:
+                    continue
+                bad = (leaf, lits, st)
+                break
+            ctx.stats['terms_compared'] += len(cs)
+            ctx.check(bad is None, '%s._process_inputs#%s' % (cls, attr), 'self.%s = kwds[%r] exactly when the key is present, else unchanged' % (attr, key),
+                      '%s._process_inputs stores self.%s = %s under %s: the value the caller gave for %s does not reach the strategies unchanged (a legal 0 is dropped)'
+                      % (cls, attr, T.show(bad[0])[:60] if bad else '', [(T.show(c)[:40], tr) for c, tr in bad[1]][:3] if bad else '', key), f, bad[2] if bad else f.node)
